@@ -347,7 +347,13 @@ class TensorProtoTensor(_core.TensorBase):  # pylint: disable=too-many-ancestors
         return self._proto
 
     def __repr__(self) -> str:
-        if self.size <= 10:
+        # Only show the elements when they are stored in the proto itself: numpy() raises for
+        # externally stored and UNDEFINED data, and repr() must not raise
+        if (
+            self.size <= 10
+            and self._proto.data_location != onnx.TensorProto.EXTERNAL
+            and self.dtype != _enums.DataType.UNDEFINED
+        ):
             tensor_lines = repr(self.numpy()).split("\n")
             tensor_text = " ".join(line.strip() for line in tensor_lines)
             return f"{self._repr_base()}({tensor_text}, name={self.name!r})"
